@@ -47,10 +47,28 @@ impl<'a> Dfa<'a> {
         for cluster in grapheme_clusters {
             dfa.insert(cluster);
         }
+        #[cfg(grex_verif)]
+        if crate::verif::is_recording() {
+            crate::verif::emit(crate::verif::Event::Trie(crate::verif::graph(&dfa)));
+        }
         if is_minimized {
             dfa.minimize();
+            #[cfg(grex_verif)]
+            if crate::verif::is_recording() {
+                crate::verif::emit(crate::verif::Event::Min(crate::verif::graph(&dfa)));
+            }
         }
         dfa
+    }
+
+    #[cfg(grex_verif)]
+    pub(crate) fn verif_states(&self) -> Vec<State> {
+        self.graph.node_indices().collect()
+    }
+
+    #[cfg(grex_verif)]
+    pub(crate) fn verif_initial_state(&self) -> State {
+        self.initial_state
     }
 
     pub(crate) fn state_count(&self) -> usize {
@@ -123,6 +141,13 @@ impl<'a> Dfa<'a> {
                     self.config.is_output_colorized,
                     self.config.is_verbose_mode_enabled,
                 );
+                #[cfg(grex_verif)]
+                crate::verif::emit(crate::verif::Event::Widen {
+                    state: current_state.index(),
+                    value: grapheme.value(),
+                    old: (current_grapheme.minimum(), current_grapheme.maximum()),
+                    new: (min, max),
+                });
                 self.graph
                     .update_edge(current_state, next_state, new_grapheme);
                 return Some(next_state);
@@ -247,6 +272,9 @@ impl<'a> Dfa<'a> {
 
         for equivalence_class in p.iter() {
             let old_source_state = *equivalence_class.iter().next().unwrap();
+            #[cfg(grex_verif)]
+            let old_source_state =
+                crate::verif::pick(equivalence_class.iter().copied(), old_source_state);
             let new_source_state = state_mappings.get(&old_source_state).unwrap();
 
             for old_target_state in self.graph.neighbors(old_source_state) {
